@@ -140,20 +140,26 @@ impl<'a> ResponseData for &'a str {
     }
 }
 
+/// Push the content of a string with every `"` doubled
+fn push_string_content(formatter: &mut dyn Formatter, s: &[u8]) -> Result<()> {
+    let mut first = true;
+    for ss in s.split(|x| *x == b'"') {
+        if !first {
+            formatter.push_str(br#""""#)?;
+        }
+        formatter.push_str(ss)?;
+        first = false;
+    }
+    Ok(())
+}
+
 impl<'a> ResponseData for &'a [u8] {
     fn format_response_data(&self, formatter: &mut dyn Formatter) -> Result<()> {
         if !self.is_ascii() {
             Err(ErrorCode::ExecutionError.into())
         } else {
-            let mut first = true;
             formatter.push_byte(b'"')?;
-            for ss in self.split(|x| *x == b'"') {
-                if !first {
-                    formatter.push_str(br#""""#)?;
-                }
-                formatter.push_ascii(ss)?;
-                first = false;
-            }
+            push_string_content(formatter, self)?;
             formatter.push_byte(b'"')
         }
     }
@@ -166,9 +172,9 @@ impl ResponseData for Error {
 
         if let Some(ext) = self.get_extended() {
             formatter.push_byte(b'"')?;
-            formatter.push_str(self.get_message())?;
+            push_string_content(formatter, self.get_message())?;
             formatter.push_byte(b';')?;
-            formatter.push_str(ext)?;
+            push_string_content(formatter, ext)?;
             formatter.push_byte(b'"')
         } else {
             self.get_message().format_response_data(formatter)
